@@ -19,7 +19,7 @@ func init() {
 		Level: "model_checking",
 		Rule: "product: configuration (4 pause-flag states x attester set {as attested, rotated away, rotated back}, reached by real transactions after the originals were emitted) x original " +
 			"{own user message, someone else's, foreign-domain with sender=submitter, bad attestation, genuine own deposit, someone else's deposit, user-sent burn-message imitation naming the submitter, a replacement of a replacement (message and deposit)} " +
-			"x {replace-message, replace-deposit} x new body / mint recipient / caller in {zero32, nonzero32, empty, 31 bytes, oversized} x 2 submitters; success only under the stated conditions, " +
+			"x {replace-message, replace-deposit} x new body / mint recipient / caller in {zero32, nonzero32, empty, 31, 33, 64, 96 bytes, oversized body} x 2 submitters; success only under the stated conditions, " +
 			"replacement reference-decoded and compared with the original field by field, raw store/ledger/counter diff must be empty; distinct_nontrivial = distinct (original kind, transaction, condition vector, outcome)",
 		Assumptions: []string{"success ONLY-IF the stated conditions; the canonical well-formed case must succeed so the check is not vacuous; other accepted-by-conditions shapes (e.g. empty new caller) are EITHER"},
 		Jobs:        c09Jobs,
@@ -119,7 +119,8 @@ func c09Run(r *Run, burnPaused, sendPaused bool, attCfg string) {
 	shapes := []struct {
 		name string
 		b    []byte
-	}{{"nonzero32", distinct32(0x2C)}, {"zero32", make([]byte, 32)}, {"empty", nil}, {"31B", distinct32(0x2C)[:31]}}
+	}{{"nonzero32", distinct32(0x2C)}, {"zero32", make([]byte, 32)}, {"empty", nil}, {"31B", distinct32(0x2C)[:31]},
+		{"33B", append(distinct32(0x2C), 0x01)}, {"64B", append(distinct32(0x2C), distinct32(0x3C)...)}, {"96B", append(append(distinct32(0x2C), distinct32(0x3C)...), pad32(UserB.Addr)...)}}
 	newBodies := []struct {
 		name string
 		b    []byte
